@@ -81,7 +81,8 @@ def histories(draw):
         elif k <= 9:
             ops.append(["del", mi, where, name])
         elif k == 10:
-            ops.append(["update", mi, vi, draw(st.integers(4, 6))])
+            # (a third of the updates name no new value / the same object: the value was edited in place)
+            ops.append(["update", mi, vi, draw(st.sampled_from([4, 5, 6, 4, 5, 6, "none", "same", "same"]))])
         elif k == 11:
             ops.append(["add_bases", mi, draw(st.sampled_from(["B", "C"])), "A"])
         elif k == 12:
@@ -397,11 +398,14 @@ def _run(case, out, tmp):
         elif k == "update":
             _, _, vi, wi = op
             old = st_.value(vi)
-            new = st_.value(wi)
             if old is None or not isinstance(old, (pd.DataFrame, pd.Series)):
                 continue
+            new = old if wi in ("none", "same") else st_.value(wi)
             try:
-                m.update_pandas(old, new)
+                if wi == "none":
+                    m.update_pandas(old)
+                else:
+                    m.update_pandas(old, new)
                 if id(old) in st_.carrying:
                     _, path, sheet = st_.carrying.pop(id(old))
                     st_.carrying[id(new)] = (new, path, sheet)
